@@ -12,7 +12,8 @@ DEFAULT_NS = "https://ns.dataone.org/service/types/v2.0#"
 STORE_ALGOS = ["MD5", "SHA-1", "SHA-256", "SHA-384", "SHA-512"]
 
 PID_POOL = ["a", "ab", "ab.c", "b", "doi:10.18739/A2901ZH2M", "urn:uuid:1b35d0a5-b17a", "A",
-            "jtao.1700.1", "a/b", "..", "-rf", "p*?[1]", "doi:10.5063/caf\u00e9", "\u65e5\u672c\u8a9e", "\U0001F600x"]
+            "jtao.1700.1", "a/b", "..", "-rf", "p*?[1]", "doi:10.5063/caf\u00e9", "\u65e5\u672c\u8a9e", "\U0001F600x",
+            "doi:10.5063/cafe\u0301"]  # (the last one: same NFC form as the composed spelling, a different pid)
 FORMAT_POOL = [DEFAULT_NS, "http://ns.dataone.org/service/types/v1", "eml://eml-2.2.0", "c", "bc", "f"]
 
 
@@ -132,7 +133,7 @@ PROFILES = {
     "C04": dict(store=7, delete=5, div=3, tag=2, smeta=1, dmeta=1, store_nopid=1, retrieve=2),
     "C05": dict(store=6, store_nopid=2, tag=5, delete=5, div=2, smeta=1, dmeta=1, retrieve=1, hexdigest=1, restart=1, raw_bad=2),
     "C06": dict(store=9, div=7, store_nopid=3, delete=2, tag=1, raw_bad=1),
-    "C11": dict(smeta=8, rmeta=4, dmeta=5, delete=3, store=3, restart=1, raw_bad=1),
+    "C11": dict(smeta=8, rmeta=4, dmeta=5, delete=3, store=3, tag=2, restart=1, raw_bad=1),
     "C16": dict(store=6, store_nopid=1, tag=3, delete=4, div=1, smeta=4, rmeta=2, dmeta=3, retrieve=1, hexdigest=1),
     "C17": dict(store=4, store_nopid=3, tag=1, delete=1, smeta=2, raw_bad=10, raw_ro=5, restart=1),
     "C18": dict(store=5, tag=2, delete=3, smeta=5, rmeta=2, dmeta=3, retrieve=2, store_nopid=1),
@@ -239,7 +240,8 @@ def gen_seq_program(seed, prof, tier="quick", mp=None, length=None):
     else:
         npid = rng.randint(2, 4)
         pool = list(PID_POOL)
-        first = rng.choice([["a", "ab"], ["ab", "a"], ["ab.c", "ab"], ["ab", "b"], ["b", "ab"], ["a/b", "b"], []])
+        first = rng.choice([["a", "ab"], ["ab", "a"], ["ab.c", "ab"], ["ab", "b"], ["b", "ab"], ["a/b", "b"], [], [],
+                            ["doi:10.5063/caf\u00e9", "doi:10.5063/cafe\u0301"], ["A", "a"]])
         pids = list(first)
         while len(pids) < npid:
             p = rng.choice(pool)
@@ -500,6 +502,18 @@ def _gen_conc_program(seed, family="obj", tier="quick", mp=None, ntasks=None):
         for _ in range(ntasks):
             tasks.append([_obj_task_op(rng, npids, ncont) for _ in range(1 if rng.random() < 0.7 else 2)])
         mcontents = [[5, 1], [9, 2]]
+        if rng.random() < 0.08:
+            # a pid that passes the string checks but cannot be hashed (lone surrogate): every call on it is refused
+            # part-way -- after the claims were taken
+            pids = pids + [M.BAD_PID]
+            for t in tasks:
+                for op in t:
+                    if op.get("pid") is not None and op["op"] in ("store", "tag", "delete") and rng.random() < 0.4:
+                        op["pid"] = npids
+                        for k in ("ck", "ckalgo", "size", "add"):
+                            op.pop(k, None)
+                        if op["op"] == "store":
+                            op["kind"] = "str"
     else:  # metadata family (C12)
         pids = ["a", "ab"][: rng.choice([1, 1, 2])]
         npids = len(pids)
@@ -568,6 +582,7 @@ def single_calls(extended=False):
         ("store-bound-pid-same", _st(0, 0)),
         ("store-validated", _st(2, 0, ckalgo="sha256", ck="ok", size="ok")),
         ("tag-A", {"op": "tag", "pid": 2, "cid": ["c", 0]}),
+        ("tag-missing-0", {"op": "tag", "pid": 2, "cid": ["x", 0]}),   # (shared with p0 in the state "p0->missing")
         ("delete-p0", {"op": "delete", "pid": 0}),
         ("delete-p1", {"op": "delete", "pid": 1}),
         ("smeta-p0-default", {"op": "smeta", "pid": 0, "fmt": None, "m": 2}),
